@@ -426,6 +426,8 @@ package bigbuff
 //@   inv mutex count : item.count >= 0
 //@   inv mutex done : item.complete ==> !item.running
 //@   inv mutex work : item.count > 0 ==> item.work != nil
+//@   # waiters wait for !running: whoever clears it broadcasts before releasing
+//@   notify-when mutex on running [C09,C10] wake : !item.running
 
 //@ type ChanPubSub as x
 //@   guard pongC : pongN
@@ -842,6 +844,38 @@ package bigbuff
 //@   at-call dynamic#1 forward : calls(value) == 1 && arg0 == lastres(value, 0) && arg1 == lastres(value, 1)
 //@   ensures once : calls(value) == 1 && calls(resolve) == 1
 
+//@ func ExclusiveWrapper$1
+//@   props C09 C10
+//@   modular
+//@   requires cfg : c != nil
+//@   ensures appended : len(c.wrappers) == old(len(c.wrappers)) + 1 && c.wrappers[old(len(c.wrappers))] == value && c.key == old(c.key) && c.work == old(c.work) && c.wait == old(c.wait) && c.start == old(c.start)
+
+//@ func ExclusiveRateLimit
+//@   props C09
+//@   panics nilctx : ctx == nil
+//@   panics baddur : minDuration <= 0
+//@   nopanic valid : ctx != nil && minDuration > 0
+//@   ensures option : ret != nil
+
+//@ func ExclusiveRateLimit$1
+//@   props C09
+//@   modular
+//@   panics nilwork : value == nil
+//@   nopanic valid : value != nil
+//@   ensures wrapped : ret != nil && captured(ret, value) == value
+
+//@ func ExclusiveRateLimit$1$1
+//@   props C09 C10
+//@   modular
+//@   maypanic
+//@   requires wired : ctx != nil && value != nil && resolve != nil && value != resolve
+//@   # a cancelled limiter context resolves with its error without running the work; otherwise the work function runs
+//@   # exactly once with the caller's resolve, and the limiter only pads the time afterwards
+//@   at-call dynamic#0 failfast : lasterr(ctx) != nil && arg0 == nil && arg1 == lasterr(ctx) && calls(value) == 0
+//@   at-call dynamic#1 work : lasterr(ctx) == nil && arg0 == resolve && calls(resolve) == 0
+//@   ensures once : (calls(value) == 1 && calls(resolve) == 0) || (calls(value) == 0 && calls(resolve) == 1)
+//@   ensures stopped : timer != nil ==> timerstopped(timer)
+
 //@ func (*Exclusive).CallWithOptions
 //@   props C09 C10
 //@   maypanic
@@ -859,6 +893,9 @@ package bigbuff
 //@ func (*Exclusive).CallAfterAsync
 //@   props C10 C09
 //@   maypanic
+//@   # exactly the options key, value, wait — in this order — and the outcome channel of CallWithOptions is returned
+//@   at-call (*Exclusive).CallWithOptions#0 opts : len(arg1) == 3 && closurename(arg1[0]) == "ExclusiveKey$1" && captured(arg1[0], value) == key && closurename(arg1[1]) == "ExclusiveWork$1" && (value != nil ==> closurename(captured(arg1[1], value)) == "ExclusiveValue$1" && captured(captured(arg1[1], value), value) == value) && closurename(arg1[2]) == "ExclusiveWait$1" && captured(arg1[2], value) == wait
+//@   ensures forwarded : icalls("(*Exclusive).CallWithOptions") == 1 && ret == ilast("(*Exclusive).CallWithOptions", 0)
 
 //@ func (*Exclusive).Call
 //@   props C10
@@ -881,6 +918,8 @@ package bigbuff
 //@ func (*Exclusive).StartAfter
 //@   props C10 C09
 //@   maypanic
+//@   at-call (*Exclusive).CallWithOptions#0 opts : len(arg1) == 4 && closurename(arg1[0]) == "ExclusiveKey$1" && captured(arg1[0], value) == key && closurename(arg1[1]) == "ExclusiveWork$1" && (value != nil ==> closurename(captured(arg1[1], value)) == "ExclusiveValue$1" && captured(captured(arg1[1], value), value) == value) && closurename(arg1[2]) == "ExclusiveWait$1" && captured(arg1[2], value) == wait && closurename(arg1[3]) == "ExclusiveStart$1" && captured(arg1[3], value)
+//@   ensures forwarded : icalls("(*Exclusive).CallWithOptions") == 1
 
 // ---------------------------------------------------------------------------------------------------
 // API aliases: thin wrappers whose whole meaning is the call they forward to.
@@ -1214,6 +1253,11 @@ package bigbuff
 //@   at-call (*sync.Mutex).Lock#1 completed : oncedone(once) && nolocks()
 //@   at-call (*sync.Mutex).Unlock#1 successor : has(e.work, c.key) && e.work[c.key] == nextItem && nextItem.running && nextItem.mutex == item.mutex && nextItem.cond == item.cond && nextItem.count == 0 && heldW(item.mutex)
 //@   at-call builtin.delete#0 unattached : nextItem.count == 0 && heldW(nextItem.mutex) && heldW(e.mutex) && arg1 == c.key
+//@   # the batch is marked running before the lock is released for the work (other waiters of the same item keep waiting),
+//@   # and the successor is released (running cleared, waiters woken) only after the work function has returned
+//@   at-call (*sync.Mutex).Unlock#2 executing : (icalls("time.Sleep") == 0 ==> item.running) && heldW(item.mutex)
+//@   at-call (*sync.Mutex).Unlock#3 executing_wait : item.running && heldW(item.mutex)
+//@   at-call (*sync.Cond).Broadcast#0 handed : !nextItem.running && heldW(nextItem.mutex) && calls(item.work) == 1
 //@   # the work function may have called resolve (possibly from another goroutine, possibly not at all)
 //@   after-call dynamic#0 havoc : region:once.done region:chan.sent region:chan.closed region:exclusiveItem.result region:exclusiveItem.err region:exclusiveItem.complete region:exclusiveItem.running
 //@   after-call dynamic#0 assume resolved : (oncedone(once) ==> (outcome != nil ==> sent(outcome) == old(sent(outcome)) + 1 && closed(outcome))) && (!oncedone(once) ==> (outcome != nil ==> sent(outcome) == old(sent(outcome)) && !closed(outcome)))
